@@ -616,7 +616,8 @@ impl HwMonitor {
                 let sig = format!("?impl:{}|PartialUnimplemented:{}", form, form);
                 let tj = t.to_json();
                 let insn = format!("{}", ins);
-                if prop == "C06" {
+                // C06 owns it for everything; C03 / C04 for the control-transfer and stack instructions they judge
+                if prop == "C06" || (prop == "C03" && matches!(fam, Family::Branch | Family::CallRet)) || (prop == "C04" && matches!(fam, Family::Stack | Family::CallRet)) {
                     col.violation(&sig, || (format!("{} [{}]: CPU completes, step() rejects it as unimplemented although other shapes of this form execute", insn, hex(&t.code)), json!({"kind": "hw", "trial": tj})));
                 }
             }
